@@ -149,7 +149,7 @@ fn json_elems(s: &str) -> Vec<String> {
 // ---------------------------------------------------------------------------------------------
 
 fn gen(rng: &mut Rng, i: usize) -> Case {
-    let hosts = if i % 4 == 3 { 2 } else { 1 };
+    let hosts = if i % 3 == 2 { 2 } else { 1 };
     let cores = rng.range(1, 3);
     let (mode, n) = match rng.below(4) {
         0 => ("S", 1),
